@@ -175,7 +175,7 @@ impl Check for C03 {
     }
     fn generate(&self, g: &GenParams, emit: &mut dyn FnMut(Case)) {
         let mut r = g.rng(3);
-        let n = g.count(100_000, 3_000_000);
+        let n = g.count(150_000, 8_000_000);
         for k in 0..n {
             let mut o = DocOpts::random(&mut r);
             o.dup_keys = k % 5 == 0;
